@@ -165,6 +165,22 @@ func facetRef(args []string) error {
 			pairs = append(pairs, pair{kind: "resp", ref: rsp.Gen, inl: g2, resp: rsp})
 		}
 	}
+	if *shard%4 == 2 {
+		// fixed pair: lists of primitives as components referenced by properties vs. the same lists
+		// written inline (goag decodes the former element by element, the latter as a whole)
+		env := &jsonEnv{comps: map[string]*JS{}}
+		env.comps["Quantities"] = &JS{Kind: "arr", Items: &JS{Kind: "int"}}
+		env.comps["Ratios"] = &JS{Kind: "arr", Items: &JS{Kind: "f32"}}
+		env.comps["Stamps"] = &JS{Kind: "arr", Items: &JS{Kind: "time", Nullable: true}}
+		env.comps["Order"] = &JS{Kind: "obj", Props: []JProp{{Name: "n", S: &JS{Kind: "int32"}}, {Name: "quantities", Req: true, S: &JS{Kind: "ref", Ref: "Quantities"}},
+			{Name: "ratios", S: &JS{Kind: "ref", Ref: "Ratios"}}, {Name: "stamps", S: &JS{Kind: "ref", Ref: "Stamps"}}}}
+		env.names = []string{"Order", "Quantities", "Ratios", "Stamps"}
+		g := GenSpec{Name: fmt.Sprintf("x%02d_lr", *shard), Spec: env.specDoc(), Ext: "json", DoNotEdit: true}
+		g2 := g
+		g2.Name = fmt.Sprintf("x%02d_li", *shard)
+		g2.Spec = inlinedSpec(g.Spec, false)
+		pairs = append(pairs, pair{kind: "json", ref: g, inl: g2, env: env})
+	}
 	if *shard%4 == 1 {
 		// a request body given by reference to components.requestBodies, with several media types in
 		// every order around application/json, vs. the same body written inline
